@@ -3,7 +3,7 @@ import Mkdb.Proofs.SessionInv9
 import Mkdb.Proofs.DbNames1
 import Mkdb.Proofs.SessionCrash3
 import Mkdb.Proofs.SessionCrash6
-import Mkdb.Proofs.SessionCrash8
+import Mkdb.Proofs.SessionCrash9
 /-!
 # C17 — databases are isolated and survive any USE pattern
 
@@ -915,5 +915,103 @@ theorem C17_oversized_first_row_example :
     (runOps {} oversizedOps).map (fun s' => ((getDB s' "d").map fun db =>
         (db.store.hdr.lastKey, db.store.hdr.nextLSN), rowsOf (exec s' (.use [100])).1 "d")) =
       some (some (12, 12), some [[.str [120]]]) := oversizedOps_example
+
+end Mkdb.Session
+
+
+namespace Mkdb.Session
+open Mkdb.Engine Mkdb.Sql Mkdb.Tree
+open Mkdb.Store hiding Stmt
+
+/-! ### crashes: an INSERT refused for the SIZE of its first row (the counters move, nothing is logged)
+
+An INSERT whose first row is too large for a page cell is refused INSIDE the tree insert (`btInsert`), after the
+row-id counter and the LSN counter were advanced; no log record is written and no page changes.  `SessCrashL` does not hold after it (not proved here;
+`live_run_applied`: a `LiveRunM` ends with the LSN counter where it started or one past a record it logged).  `SessCrashB s w`
+(Proofs/SessionCrash9) is `SessCrashL` with `DbCrashB` in the place of `DbCrashL`: the live runs may be separated
+by steps in which only the row-id / LSN counters go up.  Recovery does not need the counters of the dead process:
+it raises the row-id counter to the key of every INSERT record and the LSN counter to every record's LSN. -/
+
+/-- **C17.crash_invariant_up_to_the_counters**: `SessCrashL` (hence `SessCrash'`) implies `SessCrashB`; and from
+a session that satisfies `SessCrashB` - e.g. after any number of refused statements, oversized rows included -
+BOTH `crashRestart` (the process dies, nothing is flushed) and `restart` succeed: no recovery fails, the names are
+kept, nothing is selected, every database is checkpointed for THE SAME plain database `w`, and the session
+satisfies `SessCrash'` again. -/
+theorem C17_crash_invariant_up_to_the_counters (s : Sess) (w : String → Spec.SDB) :
+    (SessCrashL s w → SessCrashB s w) ∧
+    (SessCrashB s w → SessAbs s w ∧
+      (∃ s', crashRestart s = some s' ∧ SessCrash' s' w ∧ names s' = names s ∧ s'.cur = none ∧
+        ∀ p ∈ s'.dbs, CkptNS p.2 (w p.1)) ∧
+      (∃ s', restart s = some s' ∧ SessCrash' s' w ∧ names s' = names s ∧ s'.cur = none ∧
+        ∀ p ∈ s'.dbs, CkptNS p.2 (w p.1))) :=
+  ⟨fun h => h.toB, fun h => ⟨h.abs, crashRestart_sessCrashB h, restart_sessCrashB h⟩⟩
+
+/-- **C17.oversized_first_row_keeps_the_crash_invariant**: an INSERT into an existing table whose FIRST row the
+plain model has no row for (`FirstRowRefused`: wrong number of values, a value the column does not accept, or -
+the case `C17_refused_statement_keeps_the_crash_invariant` leaves out - a row TOO LARGE for a page cell, refused
+inside the tree insert after the row-id and LSN counters moved) returns an error, is refused by the plain model
+too, and KEEPS the crash invariant `SessCrashB` for THE SAME plain databases `w`: a crash right after it (or
+after any number of them) loses nothing (`C17_crash_invariant_up_to_the_counters`).  The log and the data file of
+the selected database are as before.  NOT claimed: that a checkpointed selected database is still checkpointed
+(it is not when the counters moved: the header in the data file is behind), so a CREATE TABLE may follow only
+after USE of another database / restart / crash. -/
+theorem C17_oversized_first_row_keeps_the_crash_invariant (s : Sess) (w : String → Spec.SDB) (h : SessCrashB s w)
+    (n : String) (hc : s.cur = some n) (db : DB) (hg : getDB s n = some db) (st : Stmt)
+    (hbad : FirstRowRefused (w n) st) :
+    Spec.specStmt (w n) st = none ∧ (∃ k, (exec s st).2 = Out.err k) ∧ SessCrashB (exec s st).1 w ∧
+    ∃ db', getDB (exec s st).1 n = some db' ∧ db'.wal = db.wal ∧ DiskSame db.store db'.store :=
+  firstRowRefused_sessCrashB h n hc db hg st hbad
+
+/-- **C17.refused_statement_keeps_the_crash_invariant_up_to_the_counters**: the statements of
+`C17_refused_statement_keeps_the_crash_invariant` (`StmtRefusalC`) keep `SessCrashB` too. -/
+theorem C17_refused_statement_keeps_the_crash_invariant_up_to_the_counters (s : Sess) (w : String → Spec.SDB)
+    (h : SessCrashB s w) (n : String) (hc : s.cur = some n) (db : DB) (hg : getDB s n = some db) (st : Stmt)
+    (hbad : ∀ pt sch tbls, DbInv db (w n) pt sch tbls → StmtRefusalC (w n) pt st) :
+    Spec.specStmt (w n) st = none ∧ (∃ k, (exec s st).2 = Out.err k) ∧ SessCrashB (exec s st).1 w ∧
+    ∃ db', getDB (exec s st).1 n = some db' ∧ (CkptNS db (w n) → CkptNS db' (w n)) :=
+  refused_sessCrashB h n hc db hg st hbad
+
+/-- **C17.histories_with_crashes_and_oversized_rows**: `C17_histories_with_crashes_and_refused_statements` with
+INSERTs refused at their first row FOR ANY REASON, the size of the row included, anywhere in the history.  From
+the EMPTY session, for every list of operations - statements, `restart`, crash - that meets `OkOps3`:
+`runOps {} ops` is `some s'` - NO recovery fails -, `s'` satisfies `SessCrashB` (so `SessAbs`) for the plain
+databases `worldOps {} (fun _ => []) ops` of the acknowledged statements - a refused statement changes none -, and
+one more crash or restart succeeds too and preserves them (then `SessCrash'` holds again).  `OkOps3` asks of a
+statement EITHER what `OkOps2` asks, OR that it is an INSERT into an existing table of the selected database whose
+first row the plain model has no row for (`FirstRowRefused`); after such an INSERT the flag that allows CREATE
+TABLE is cleared.  Every list that meets `OkOps2` meets `OkOps3` (`OkOps2.toOkOps3`).  EXCLUDED as before:
+statements refused at a later row (false: `C17_crash_loses_rows_of_a_refused_insert`), CREATE TABLE after row
+statements with no USE of another database / restart / crash between them. -/
+theorem C17_histories_with_crashes_and_oversized_rows (ops : List SOp)
+    (hok : OkOps3 {} (fun _ => []) true ops) :
+    ∃ s', runOps {} ops = some s' ∧ SessCrashB s' (worldOps {} (fun _ => []) ops) ∧
+      SessAbs s' (worldOps {} (fun _ => []) ops) ∧
+      (∃ s'', crashRestart s' = some s'' ∧ SessCrash' s'' (worldOps {} (fun _ => []) ops) ∧ names s'' = names s') ∧
+      (∃ s'', restart s' = some s'' ∧ SessCrash' s'' (worldOps {} (fun _ => []) ops) ∧ names s'' = names s') := by
+  obtain ⟨s', e, h'⟩ := runOps_cinvB ops {} _ true (cinvB_empty _ _) hok
+  obtain ⟨s1, e1, k1, n1, _⟩ := crashRestart_sessCrashB h'
+  obtain ⟨s2, e2, k2, n2, _⟩ := restart_sessCrashB h'
+  exact ⟨s', e, h', h'.abs, ⟨s1, e1, k1, n1⟩, ⟨s2, e2, k2, n2⟩⟩
+
+/-- **C17.histories_with_crashes_and_oversized_rows_from**: the same from any session that satisfies
+`CInvB s w clean` (`SessCrashB s w`, and if the flag is set every database is checkpointed; `CInvL` implies it,
+`CInvL.toB`). -/
+theorem C17_histories_with_crashes_and_oversized_rows_from (s : Sess) (w : String → Spec.SDB) (clean : Bool)
+    (ops : List SOp) (h : CInvB s w clean) (hok : OkOps3 s w clean ops) :
+    ∃ s', runOps s ops = some s' ∧ SessCrashB s' (worldOps s w ops) ∧ SessAbs s' (worldOps s w ops) := by
+  obtain ⟨s', e, h'⟩ := runOps_cinvB ops s w clean h hok
+  exact ⟨s', e, h', h'.abs⟩
+
+/-- non-vacuity (the statements of `oversizedOps` / `C17_oversized_first_row_example`): on the plain database with
+the one empty table `t (b VARCHAR(5000))`, INSERT INTO t VALUES ('xx…x') with 1100 bytes is `FirstRowRefused`
+(the row encodes, and is too large), and it is NOT one of the refusals `rowRefusedEarly` covers -/
+example : FirstRowRefused [⟨tname, [⟨"b", .varchar, 5000⟩], []⟩] (.insert tname [] [[.str (List.replicate 1100 120)]]) ∧
+    rowRefusedEarly [⟨"b", .varchar, 5000⟩] [] [Mkdb.Tuple.Val.str (List.replicate 1100 120)] = false :=
+  firstRowRefused_oversized_example
+
+/-- non-vacuity of `OkOps3` with an oversized row: CREATE DATABASE d; USE d; CREATE TABLE t (b VARCHAR(5000));
+INSERT INTO t VALUES ('xx…x') with 1100 bytes - refused for its size, the counters moved -; INSERT INTO t VALUES
+('yy…y') with 1100 bytes - refused again, on the database the first refusal left -; crash; USE d; restart -/
+example : OkOps3 {} (fun _ => []) true oversizedOps3 := okOps3_example
 
 end Mkdb.Session
